@@ -138,6 +138,9 @@ def py_issue(w, cfg, op, call):
         return ("err", "%s: %s" % (type(e).__name__, str(e)[:200]))
 
 
+_KEEPALIVE = []  # the writer object of the last "withexc" session: the caller's `as` variable outlives the with block
+
+
 def run_python(cfg, ops, chdir, per_step=None, end="close", sibling=None):
     """Run ops through DigitalRFWriter.  Returns list of per-op results.
 
@@ -146,6 +149,7 @@ def run_python(cfg, ops, chdir, per_step=None, end="close", sibling=None):
     import gc
 
     os.makedirs(chdir, exist_ok=True)
+    del _KEEPALIVE[:]
     w2 = None
     if sibling:
         # a second writer object in this process (another channel directory), written alternately with the primary one
@@ -192,6 +196,7 @@ def run_python(cfg, ops, chdir, per_step=None, end="close", sibling=None):
                     # failure to finalize must not be lost behind the application's exception
                     class _AppError(Exception):
                         pass
+                    _KEEPALIVE.append(w)
                     try:
                         with w:
                             raise _AppError("stop recording")
